@@ -97,6 +97,9 @@ func exprStr(e ast.Expr) string {
 
 // callee resolves the called function or method (static or interface method).
 func callee(info *types.Info, call *ast.CallExpr) *types.Func {
+	if call == nil || info == nil {
+		return nil
+	}
 	f, _ := typeutil.Callee(info, call).(*types.Func)
 	return f
 }
